@@ -103,6 +103,86 @@ def install(rec: T.Callable[[dict], None]) -> None:
                 setattr(mod, name, fn)
 
 
+    _install_clause_markers(rec)
+
+
+def _install_clause_markers(rec: T.Callable[[dict], None]) -> None:
+    """Per-clause attribution for `if`/`elif` chains: which clause condition is being evaluated, what it
+    evaluated to, when an if statement is entered/left and when an else block starts.  Record only."""
+    try:
+        from mesonbuild.interpreterbase import interpreterbase as ib
+        from mesonbuild import mparser
+    except Exception:
+        return
+    IB = ib.InterpreterBase
+    real_if = IB.evaluate_if
+    real_stmt = IB.evaluate_statement
+    real_block = IB.evaluate_codeblock
+    cond_ids: T.Dict[int, T.Tuple[int, int]] = {}     # id(condition node) -> (if serial, clause index)
+    else_ids: T.Dict[int, int] = {}                   # id(else block) -> if serial
+    serial = [0]
+
+    @functools.wraps(real_if)
+    def evaluate_if(self: T.Any, node: T.Any) -> T.Any:
+        serial[0] += 1
+        me = serial[0]
+        mine: T.List[int] = []
+        try:
+            for k, clause in enumerate(node.ifs):
+                cond_ids[id(clause.condition)] = (me, k)
+                mine.append(id(clause.condition))
+            eb = getattr(node.elseblock, 'block', None)
+            if eb is not None:
+                else_ids[id(eb)] = me
+            rec({'ev': 'if_enter', 'if': me, 'line': getattr(node, 'lineno', -1), 'clauses': len(node.ifs)})
+        except Exception:
+            pass
+        try:
+            return real_if(self, node)
+        finally:
+            try:
+                rec({'ev': 'if_exit', 'if': me})
+                for i in mine:
+                    cond_ids.pop(i, None)
+                else_ids.pop(id(getattr(node.elseblock, 'block', None)), None)
+            except Exception:
+                pass
+
+    @functools.wraps(real_stmt)
+    def evaluate_statement(self: T.Any, cur: T.Any) -> T.Any:
+        tag = cond_ids.get(id(cur))
+        if tag is None:
+            return real_stmt(self, cur)
+        try:
+            rec({'ev': 'clause_begin', 'if': tag[0], 'clause': tag[1], 'line': getattr(cur, 'lineno', -1)})
+        except Exception:
+            pass
+        res = None
+        try:
+            res = real_stmt(self, cur)
+            return res
+        finally:
+            try:
+                held = getattr(res, 'held_object', None)
+                rec({'ev': 'clause_end', 'if': tag[0], 'clause': tag[1], 'value': held if isinstance(held, bool) else None})
+            except Exception:
+                pass
+
+    @functools.wraps(real_block)
+    def evaluate_codeblock(self: T.Any, node: T.Any, *a: T.Any, **kw: T.Any) -> T.Any:
+        tag = else_ids.get(id(node))
+        if tag is not None:
+            try:
+                rec({'ev': 'else_begin', 'if': tag})
+            except Exception:
+                pass
+        return real_block(self, node, *a, **kw)
+
+    IB.evaluate_if = evaluate_if                    # type: ignore[method-assign]
+    IB.evaluate_statement = evaluate_statement      # type: ignore[method-assign]
+    IB.evaluate_codeblock = evaluate_codeblock      # type: ignore[method-assign]
+
+
 def _caller() -> str:
     """Nearest mesonbuild frame outside utils/universal.py: shows that the interpreter reached us."""
     import sys
